@@ -59,9 +59,9 @@ PROPS = {
     'C05': dict(
         level='proof',
         explain='MemQueue/MemQueues/MultiRecordLog operations proved against the sequential queue-map spec (QView, LogView) written from the property text, '
-                'over the whole view, including the wrapper append_record (= append_records of a one-element batch, @sameas) and position_to_idx (over the assumed std contract of binary_search_by_key, cross-checked bounded by K-p2i); range / get_range are bounded Kani stand-ins, never counted as proved.',
+                'over the whole view, including the wrapper append_record (= append_records of a one-element batch, @sameas) and position_to_idx (over the assumed std contract of binary_search_by_key, cross-checked bounded by K-p2i); RollingBuffer::get_range is VERIFIED for every bound kind and every ring layout (O-C05-getrange: left slice, right slice, re-assembly across the wrap; rule R22); MemQueue::range has bounded Kani stand-ins, never counted as proved.',
         kani_quick=[], kani_thorough=['K-p2i'] + ['K-getrange-r%d' % r for r in range(4)] + ['K-range-%s' % k for k in ('ii', 'ie', 'iu', 'ei', 'ee', 'eu', 'ui', 'ue', 'uu')],
-        trusted=['RollingBuffer::get_range (bounded K-getrange)', '<[T]>::binary_search_by_key, iter::once (assumed std contracts; K-p2i cross-checks the former, bounded)', 'MemQueue::range (bounded K-range)',
+        trusted=['RangeBounds::{start_bound,end_bound} through a generic bound return vstd\'s spec value (R22 shims) and VecDeque::as_slices().0 ++ .1 == contents (assumed std contracts; K-getrange cross-checks both on the real code, bounded)', '<[T]>::binary_search_by_key, iter::once (assumed std contracts; K-p2i cross-checks the former, bounded)', 'MemQueue::range (bounded K-range)',
                  'MultiRecord::{serialize,serialize_with_pos} are VERIFIED over the assumed contracts of bytes::Buf (R10: a cursor over a byte string; chunk() a non-empty prefix while bytes remain) and of (start..).zip(it) (R19); the payload iterator is assumed to obey vstd\'s iterator laws and to be finite (iter_ok, a precondition of append_records)', 'HashMap::get_mut (assumed std contract)', 'RollingBuffer::extend'],
         not_decided=['summary, list_queues (iterator adapters over HashMap): unverified', 'MemQueues::range / MultiRecordLog::range one-line pass-throughs'],
     ),
